@@ -455,15 +455,7 @@ class Compiler:
             msg, payload = self.conn.recv()
 
             if msg == RuntimeMessage.LOG:
-                record = pickle.loads(payload)
-                if isinstance(record, logging.LogRecord):
-                    logger = logging.getLogger(record.name)
-                    if logger.isEnabledFor(record.levelno):
-                        logger.handle(record)
-                else:
-                    name, levelno, msg = record
-                    logger = logging.getLogger(name)
-                    logger.log(levelno, msg)
+                self._handle_log(payload)
 
             elif msg == RuntimeMessage.ERROR:
                 raise RuntimeError(payload)
@@ -481,6 +473,18 @@ class Compiler:
 
         return to_return
 
+    def _handle_log(self, payload: bytes) -> None:
+        """Emit a log record shipped from the runtime."""
+        record = pickle.loads(payload)
+        if isinstance(record, logging.LogRecord):
+            logger = logging.getLogger(record.name)
+            if logger.isEnabledFor(record.levelno):
+                logger.handle(record)
+        else:
+            name, levelno, msg = record
+            logger = logging.getLogger(name)
+            logger.log(levelno, msg)
+
     def _recv_log_error_until_empty(self) -> None:
         """Handle all remaining log and error messages in the pipeline."""
         if self.conn is None:
@@ -490,9 +494,7 @@ class Compiler:
             msg, payload = self.conn.recv()
 
             if msg == RuntimeMessage.LOG:
-                logger = logging.getLogger(payload.name)
-                if logger.isEnabledFor(payload.levelno):
-                    logger.handle(payload)
+                self._handle_log(payload)
 
             elif msg == RuntimeMessage.ERROR:
                 raise RuntimeError(payload)
